@@ -59,6 +59,26 @@ def _direct(summary, pid, entry_fn):
     return out
 
 
+LOBE_KEY = 'doSplitOp-opposite-lobe'
+
+
+def lobe_known(m, conf):
+    """True when the confirmed witness lies in (or within 2 units of) a lobe that
+    doSplitOp dropped under exactly the upstream rule 'opposite orientation and not
+    larger than the ring' -- the one recorded known finding of the sweep."""
+    if not conf:
+        return False
+    q = (geom.parse_q(conf['point'][0]), geom.parse_q(conf['point'][1]))
+    for ev in m.get('split_discards') or []:
+        a1, a2 = ev['area1'], ev['area2']
+        if not ((a2 > 0) != (a1 > 0) and abs(a2) <= abs(a1) and abs(a2) > 1):
+            continue
+        tri = [ev['tri']]
+        if geom.wn(tri, q) != 0 or geom.min_dist2(geom.closed_edges(tri), q) <= 4:
+            return True
+    return False
+
+
 # ------------------------------------------------------------------ C01
 def run_c01(ctx):
     n = _tier(ctx, 4000, 60000)
@@ -89,8 +109,9 @@ def run_c01(ctx):
                 ctx['distribution']['accepted_at_deeper_cover'] = ctx['distribution'].get('accepted_at_deeper_cover', 0) + 1
                 continue
         entry = _c01_entry(m)
-        v = {'key': key, 'kind': 'region', 'detail': {'corpus_entry': entry, 'api': m['api'], 'solution': Sol,
-                                                       'checker': res, 'confirmed': conf}}
+        v = {'key': LOBE_KEY if lobe_known(m, conf) else key, 'kind': 'region',
+             'detail': {'corpus_entry': entry, 'api': m['api'], 'solution': Sol, 'checker': res, 'confirmed': conf,
+                        'split_discards': m.get('split_discards')}}
         if conf:
             v['text'] = 'clip type %d fill rule %d (%s): at point (%s, %s), > 2 units from every input edge, windings subject/clip/solution = %s contradict the boolean combination' % (
                 ct, fr, m['api'], conf['point'][0], conf['point'][1], conf['windings'])
@@ -176,6 +197,306 @@ def run_c02(ctx):
     return viol
 
 
+# ------------------------------------------------------------------ C19
+def shoelace2(paths):
+    t = 0
+    for p in paths:
+        n = len(p)
+        for i in range(n):
+            a, b = p[i - 1], p[i]
+            t += (a[1] + b[1]) * (a[0] - b[0])
+    return t   # twice the signed area (Area64's convention)
+
+
+def edge_len_upper(paths):
+    import math
+    t = 0
+    for p in paths:
+        n = len(p)
+        for i in range(n):
+            a, b = p[i - 1], p[i]
+            t += math.isqrt((a[0] - b[0]) ** 2 + (a[1] - b[1]) ** 2) + 1
+    return t
+
+
+def four_pred(w):
+    u, i, d, x, d2 = [k % 2 != 0 for k in w]
+    return x == (u and not i) and u == (d or i or d2) and not (d and i) and not (d and d2) and not (i and d2)
+
+
+def run_c19(ctx):
+    n = _tier(ctx, 1200, 20000)
+    results, meta, summary = _stream(ctx, 'c19', n, 'c01.jsonl', _tier(ctx, 600, 5400))
+    _merge_dist(ctx, summary)
+    ent = lambda m: {'subject': m['subject'], 'clip': m['clip'], 'clip_nil': False, 'ct': 0, 'fr': m['fr']}
+    viol = _direct(summary, 'C19', ent)
+    seen = set()
+    for cid, res in results.items():
+        if not cid.startswith('c19-'):
+            continue
+        m = meta[cid]
+        ctx['evaluations'] += 1
+        entry = ent(m)
+        key = fw.input_key(entry)
+        seen.add(key)
+        S, C = m['subject'], m['clip']
+        U, I, D, X, D2, SR, CR = (m[k] for k in ('U', 'I', 'D', 'X', 'D2', 'SR', 'CR'))
+        if len(ctx['samples']) < 2:
+            ctx['samples'].append({'id': cid, 'subject': S if len(str(S)) < 2000 else '(%d paths, large)' % len(S), 'fr': m['fr'],
+                                   'areas2': {k: shoelace2(m[k]) for k in ('U', 'I', 'D', 'X', 'D2', 'SR', 'CR')}, 'verdict': res.split()[0]})
+        # area identities, exact integers (twice the areas); bound 2 * L  => 4 * L on doubled areas
+        L = edge_len_upper(S) + edge_len_upper(C)
+        a = {k: shoelace2(m[k]) for k in ('U', 'I', 'D', 'X', 'D2', 'SR', 'CR')}
+        ids = [('area(U)+area(I) = area(S)+area(C)', a['U'] + a['I'] - a['SR'] - a['CR']),
+               ('area(X) = area(U)-area(I)', a['X'] - a['U'] + a['I']),
+               ('area(D) = area(S)-area(I)', a['D'] - a['SR'] + a['I']),
+               ('area(D)+area(I)+area(D\') = area(U)', a['D'] + a['I'] + a['D2'] - a['U'])]
+        for name, disc in ids:
+            if abs(disc) > 4 * L:
+                viol.append({'key': key, 'kind': 'area-identity',
+                             'text': 'fill rule %d: %s violated: discrepancy %s/2 exceeds 2 x total input edge length %d' % (m['fr'], name, disc, L),
+                             'detail': {'corpus_entry': entry, 'areas_twice': a, 'L': L}})
+                break
+        if not m.get('pointwise') or res.startswith('OK'):
+            continue
+        conf = fw.confirm_region([U, I, D, X, D2], geom.closed_edges(S) + geom.closed_edges(C), 4, four_pred, fw.parse_fail(res))
+        if not conf:
+            r2 = fw.recheck_deeper(ctx['root'], ctx['outdir'], [cid]).get(cid, '')
+            if r2.startswith('OK'):
+                continue
+        v = {'key': key, 'kind': 'set-identities', 'detail': {'corpus_entry': entry, 'checker': res, 'confirmed': conf,
+                                                               'outputs': {k: m[k] for k in ('U', 'I', 'D', 'X', 'D2')}}}
+        if conf:
+            v['text'] = 'fill rule %d: at point (%s, %s), > 2 units from every input edge, the parities of Union/Intersection/Difference/Xor/Difference(C,S) = %s break the set identities' % (
+                m['fr'], conf['point'][0], conf['point'][1], [k % 2 for k in conf['windings']])
+        else:
+            v['text'] = 'set-identity certificate rejected (%s) for input key %s' % (res[:80], key)
+            v['no_input'] = True
+        viol.append(v)
+    ctx['nontrivial'] += len(seen)
+    return viol
+
+
+# ------------------------------------------------------------------ generic "two outputs describe the same region" runner
+def run_same_region(ctx, cmd, prefix, n, corpus, a_key, b_key, band_fn, r2_fn, entry_fn, what_fn, parity=True):
+    results, meta, summary = _stream(ctx, cmd, n, corpus, _tier(ctx, 600, 5400))
+    _merge_dist(ctx, summary)
+    viol = _direct(summary, ctx['pid'], entry_fn)
+    seen = set()
+    for cid, res in results.items():
+        if not cid.startswith(prefix):
+            continue
+        m = meta[cid]
+        ctx['evaluations'] += 1
+        entry = entry_fn(m)
+        key = fw.input_key(entry)
+        seen.add(key)
+        if len(ctx['samples']) < 3:
+            ctx['samples'].append({'id': cid, 'case': {k: m[k] for k in m if k not in ('gen',) and len(str(m[k])) < 1500}, 'verdict': res.split()[0]})
+        if res.startswith('OK'):
+            continue
+        A, B = m[a_key], m[b_key]
+        band = band_fn(m)
+        r2 = r2_fn(m)
+        if parity:
+            pred = lambda w: (w[0] % 2 != 0) == (w[1] % 2 != 0)
+        else:
+            pred = lambda w: (w[0] != 0) == (w[1] != 0)
+        conf = fw.confirm_region([A, B], band, r2, pred, fw.parse_fail(res))
+        if not conf:
+            r2x = fw.recheck_deeper(ctx['root'], ctx['outdir'], [cid]).get(cid, '')
+            if r2x.startswith('OK'):
+                continue
+        v = {'key': key, 'kind': 'region-differs', 'detail': {'corpus_entry': entry, 'case': m, 'checker': res, 'confirmed': conf}}
+        if conf:
+            v['text'] = '%s: the two results differ at point (%s, %s), outside the rounding band (windings %s)' % (what_fn(m), conf['point'][0], conf['point'][1], conf['windings'])
+        else:
+            v['text'] = '%s: region-equality certificate rejected (%s)' % (what_fn(m), res[:80])
+            v['no_input'] = True
+        viol.append(v)
+    ctx['nontrivial'] += len(seen)
+    return viol
+
+
+def run_c17(ctx):
+    band = lambda m: geom.closed_edges(m['subject']) + geom.closed_edges(m['clip'] or [])
+    ent = lambda m: dict(_c01_entry(m), variant=m.get('variant'), v_subject=m.get('v_subject'), v_clip=m.get('v_clip'), v_ct=m.get('v_ct'), v_fr=m.get('v_fr'))
+    return run_same_region(ctx, 'c17', 'c17-', _tier(ctx, 500, 10000), 'none', 'out_base', 'out_variant_in_base_frame',
+                           band, lambda m: 4, ent, lambda m: 'respelling %s (clip type %d, fill rule %d)' % (m.get('variant'), m['ct'], m['fr']))
+
+
+# ------------------------------------------------------------------ C06
+RECT_MULTI_KEY = 'rectclip-multiply-wound'
+
+
+def run_c06(ctx):
+    n = _tier(ctx, 4000, 80000)
+    results, meta, summary = _stream(ctx, 'c06', n, 'none', _tier(ctx, 600, 5400))
+    _merge_dist(ctx, summary)
+    ent = lambda m: {'in': m['in'], 'rect': m['rect']}
+    viol = []
+    for d in summary.get('direct_failures') or []:
+        e = ent(d)
+        viol.append({'key': fw.input_key(e), 'kind': d.get('kind'), 'text': 'RectClipPaths64 rect %s: %s' % (d['rect'], d.get('kind') or d.get('panic')),
+                     'detail': {'corpus_entry': e, 'out': d.get('out'), 'failure': d.get('kind'), 'panic': d.get('panic')}})
+    seen = set()
+    for cid, res in results.items():
+        if not cid.startswith('c06-'):
+            continue
+        m = meta[cid]
+        ctx['evaluations'] += 1
+        entry = ent(m)
+        key = fw.input_key(entry)
+        if m['out']:
+            seen.add(key)
+        if len(ctx['samples']) < 3:
+            ctx['samples'].append({'id': cid, 'rect': m['rect'], 'in': m['in'], 'out': m['out'], 'verdict': res.split()[0]})
+        if res.startswith('OK'):
+            continue
+        l, t, r, b = m['rect']
+        rp = [[[l, t], [r, t], [r, b], [l, b]]]
+        pred = lambda w: (w[1] == w[0]) if w[2] != 0 else (w[1] == 0)
+        conf = fw.confirm_region([m['in'], m['out'], rp], geom.closed_edges(m['in']) + geom.closed_edges(rp), 4, pred, fw.parse_fail(res))
+        if not conf:
+            r2 = fw.recheck_deeper(ctx['root'], ctx['outdir'], [cid]).get(cid, '')
+            if r2.startswith('OK'):
+                continue
+        v = {'key': key, 'kind': 'rect-region', 'detail': {'corpus_entry': entry, 'out': m['out'], 'checker': res, 'confirmed': conf}}
+        if conf:
+            wi, wo, wr = conf['windings']
+            if wr != 0 and abs(wi) >= 2 and (wi - wo) % 2 == 0:
+                v['key'] = RECT_MULTI_KEY
+            v['text'] = 'rect %s: at point (%s, %s), > 2 units from the rectangle boundary and every input edge, winding input/output/rectangle = %s' % (
+                m['rect'], conf['point'][0], conf['point'][1], conf['windings'])
+        else:
+            v['text'] = 'rectangle-clip certificate rejected (%s) for input key %s' % (res[:80], key)
+            v['no_input'] = True
+        viol.append(v)
+    ctx['nontrivial'] += len(seen)
+    return viol
+
+
+# ------------------------------------------------------------------ K1 helpers
+def parse_paths_out(res):
+    """'n x y ... ; n x y ...' -> list of paths"""
+    out = []
+    for part in res.split(';'):
+        t = part.split()
+        if not t:
+            out.append([]); continue
+        n = int(t[0])
+        out.append([[int(t[1 + 2 * i]), int(t[2 + 2 * i])] for i in range(n)])
+    return out
+
+
+def is_subseq(a, b):
+    it = iter(b)
+    return all(any(x == y for y in it) for x in a)
+
+
+def cross3(a, b, c):
+    return (b[0] - a[0]) * (c[1] - b[1]) - (b[1] - a[1]) * (c[0] - b[0])
+
+
+def has_unit_diff(p):
+    for a in p:
+        for b in p:
+            if b[0] - a[0] == 1 or b[1] - a[1] == 1:
+                return True
+    return False
+
+
+def k1_finish(ctx, pid, viol, mismatches, what):
+    """a broken correspondence with no property failure found is still reported"""
+    if mismatches and not any(not v.get('_known_class') for v in viol):
+        mm = mismatches[0]
+        viol.append({'key': 'correspondence:' + what, 'kind': 'correspondence-broken', 'no_input': True,
+                     'text': 'model %s and implementation disagree on %d of the generated inputs (first: %s) but no input violating the property was found; correspondence with the Coq model (theorems about %s) no longer checks' % (what, len(mismatches), json.dumps(mm)[:300], what),
+                     'detail': {'first_mismatches': mismatches[:5]}})
+    return viol
+
+
+# ------------------------------------------------------------------ C15
+def trim_clauses(p, is_open, out, out_twice):
+    """executable statement of C15 on one (input, output, output-of-output); returns failing clause names"""
+    bad = []
+    if not is_subseq(out, p):
+        bad.append('not-a-subsequence')
+    if is_open:
+        if len(p) >= 2 and out and (out[0] != p[0] or out[-1] != p[-1]):
+            bad.append('open-end-points-not-kept')
+        if len(p) >= 2 and p[0] != p[-1] and not out and len(set(map(tuple, p))) > 1:
+            bad.append('open-path-vanished')
+    else:
+        if shoelace2([out]) != shoelace2([p]):
+            bad.append('area-changed')
+        if out and len(out) < 3:
+            bad.append('fewer-than-3-vertices')
+        n = len(out)
+        if n >= 3 and any(cross3(out[i - 1], out[i], out[(i + 1) % n]) == 0 for i in range(n)):
+            bad.append('collinear-triple-remains')
+    if out_twice != out:
+        bad.append('not-idempotent')
+    return bad
+
+
+def run_c15(ctx):
+    n = _tier(ctx, 20000, 400000)
+    args = ['exhaustive']
+    out, err = fw.run_stream(ctx['root'], ctx['workdir'], 'c15', ctx['seed'], n, args)
+    if out is None:
+        raise RuntimeError(err)
+    results, ncases, timed_out = fw.run_checker(ctx['root'], out, _tier(ctx, 600, 3600))
+    meta = fw.load_meta(out)
+    summary = json.load(open(os.path.join(out, 'summary.json')))
+    _merge_dist(ctx, summary)
+    viol = []
+    for d in summary.get('direct_failures') or []:
+        e = {'path': d['path'], 'open': d['open']}
+        viol.append({'key': fw.input_key(e), 'kind': d.get('kind'), 'text': 'TrimCollinear64(%s, open=%s): %s %s' % (d['path'], d['open'], d.get('kind'), d.get('panic', '')),
+                     'detail': {'corpus_entry': e}})
+    mismatches = []
+    seen = set()
+    for cid, res in results.items():
+        m = meta[cid]
+        ctx['evaluations'] += 1
+        p, is_open, go, go2 = m['path'], m['open'], m['go'], m['go_twice']
+        if res.startswith('ERROR'):
+            raise RuntimeError('model evaluation failed: ' + res)
+        faithful, exact, exact2 = parse_paths_out(res)
+        if go != p and go:
+            seen.add(json.dumps([p, is_open]))
+        if len(ctx['samples']) < 4 and go != p:
+            ctx['samples'].append({'path': p, 'open': is_open, 'go': go, 'model': faithful, 'model_exact_predicate': exact})
+        if faithful != go:
+            mismatches.append({'path': p, 'open': is_open, 'go': go, 'model': faithful})
+        bad = trim_clauses(p, is_open, go, go2)
+        if not bad:
+            continue
+        bad_exact = trim_clauses(p, is_open, exact, exact2)
+        for cl in bad:
+            e = {'path': p, 'open': is_open}
+            if cl in bad_exact and faithful == go:
+                key, kc = 'trim-lookahead', True
+            elif faithful == go and (has_unit_diff(p)):
+                key, kc = 'trisign-unit-difference', True
+            else:
+                key, kc = fw.input_key(e), False
+            viol.append({'key': key, '_known_class': kc, 'kind': cl,
+                         'text': 'TrimCollinear64(%s, open=%s) = %s: %s%s' % (p, is_open, go, cl, (' (trimming again gives %s)' % go2) if cl == 'not-idempotent' else ''),
+                         'detail': {'corpus_entry': e, 'go': go, 'go_twice': go2, 'model_faithful': faithful, 'model_exact_predicate': exact}})
+    ctx['nontrivial'] += len(seen)
+    # keep one representative per (key, clause) to bound the report
+    uniq, out_v = set(), []
+    for v in viol:
+        k = (v['key'], v['kind'])
+        if k in uniq:
+            continue
+        uniq.add(k)
+        out_v.append(v)
+    return k1_finish(ctx, 'C15', out_v, mismatches, 'TrimCollinear64')
+
+
 REGION_TRUST = [
     "the region checker is proved sound for every real point (Cert/RegionSound.v); what ties it to the code is that the implementation's actual outputs are fed to the extracted checker on every run (generated + corpus inputs): a defect no generated input triggers stays invisible",
     fw.REAL_AXIOMS,
@@ -187,6 +508,29 @@ PROPS = {
         'run': run_c01, 'level': 'proof', 'trust': REGION_TRUST,
         'rule': 'structured random subject/clip pairs (8 polygon kinds, 10 grids from 3 to 2^20, shifts up to 2^29, 4 clip types x 4 fill rules, nil/empty clip, 3 API variants) plus the committed corpus; distinct = distinct (subject, clip, clip type, fill rule); non-trivial = the solution is non-empty',
         'assumes': ['the reading of "inside the solution" as odd winding of the solution (orientation is C02\'s business)'],
+    },
+    'C19': {
+        'run': run_c19, 'level': 'proof', 'trust': REGION_TRUST + ['area identities: exact integer shoelace sums of the outputs computed by the driver (Python integers)'],
+        'rule': 'C01-style random pairs x 4 fill rules, all five operations per input, every tenth case a many-vertex input (1000-4000 vertices, areas only); distinct = distinct (subject, clip, fill rule)',
+        'assumes': [],
+    },
+    'C17': {
+        'run': run_c17, 'level': 'proof', 'trust': REGION_TRUST + ['determinism: every call is made twice on equal inputs and compared bytewise by the harness (observed, not proved, for the sweep)'],
+        'rule': 'C01-style random inputs; per base input 5-6 respellings (path permutation, start rotation, vertex/closing-vertex duplication, reversal under the matching fill-rule change, subject/clip exchange, one of the 7 non-trivial lattice symmetries); distinct = distinct (input, variant)',
+        'assumes': ['orientation-reversing lattice symmetries exchange Positive and Negative (winding numbers negate under reflection)'],
+    },
+    'C06': {
+        'run': run_c06, 'level': 'proof', 'trust': [t.replace('the Vatti sweep itself (clipper_base.go, engine.go)', 'the rectangle clipper state machine (rect_clip.go)') for t in REGION_TRUST] + ['vertex-in-rectangle, inside-unchanged, outside-vanishes and the driver (joint result = concatenation of per-path results) are decided directly by the harness on every case'],
+        'rule': 'random closed path sets (8 polygon kinds, 9 grids) x rectangles whose sides often pass through path vertices, empty and swallowing rectangles; distinct = distinct (rect, paths); non-trivial = non-empty output',
+        'assumes': [],
+    },
+    'C15': {
+        'run': run_c15, 'level': 'proof',
+        'trust': ['hand-written Gallina model Model/Trim.v of TrimCollinear64 (parametric in the collinearity predicate); tied to the code by exact output comparison on every generated input (correspondence), including ALL paths of <= 4 points on the 3x3 lattice, closed and open',
+                  'Model/Arith.v isCollinear/productsAreEqual/triSign models (faithful, including triSign 1 = 0)',
+                  'the executable statement of the property (lib/propdefs.py trim_clauses) evaluated on the implementation outputs'],
+        'rule': 'exhaustive: all closed and open paths of <= 4 points on the 3x3 lattice; random: tiny-grid paths, polygons with inserted collinear midpoints/duplicates/spikes/rotated starts, staircases, large coordinates with unit differences, fully collinear paths; non-trivial = at least one vertex removed and the result non-empty',
+        'assumes': [],
     },
     'C02': {
         'run': run_c02, 'level': 'proof', 'trust': REGION_TRUST,
